@@ -167,3 +167,12 @@ package atree
 //@   ensures old(a.inlined) ==> !a.inlined && a.header.size == old(a.header.size) - 17 + 5 && a.header.slabID == old(a.header.slabID)
 //@   ensures err == nil ==> sto[a.header.slabID] == a && has(stored, a)
 //@   modifies a.header, a.inlined, ghost.sto, ghost.stored, ghost.touched, alloc
+
+//@ # bulk pop empties the array; when the array lives inline in a parent, the parent has to be told (C10)
+//@ func (a *Array) PopIterate(fn) (err)  serves C01 C10
+//@   requires fn != nil
+//@   assume rootReady(a) because "tree invariant at the root (composition)"
+//@   ensures[C01] err == nil ==> is(a.root, *ArrayDataSlab) && len(as(a.root, *ArrayDataSlab).elements) == 0 && as(a.root, *ArrayDataSlab).header.count == 0 &&
+//@        as(a.root, *ArrayDataSlab).header.slabID == old(hdrOf(a.root).slabID) && wfADS(as(a.root, *ArrayDataSlab))
+//@   ensures[C10] err == nil && old(is(a.root, *ArrayDataSlab) && as(a.root, *ArrayDataSlab).inlined) ==> notified > old(notified)
+//@   modifies heap, ghost.sto, ghost.stored, ghost.touched, ghost.notified, alloc
